@@ -17,11 +17,11 @@ def run(tier, seed):
         bounds="every refusing call (bulk set with the k-th of 1-3 elements unconvertible, vetoed by-name setter, wrong-type setter, index >= 1 on a scalar, add of an existing title, removal of a missing instance, list call on a non-list, set-from-text with unconvertible text) x option kind x 0-3 values; symbolic values, RESET/MODIFIED bits, annotation present or not, offending position",
         assumptions=[
             "snapshot = value vector pointer, cell pointers, contents, count, order, annotation pointer and text, RESET/MODIFIED bits",
-            "known finding (see known_findings.txt): cfg_setopt() with unconvertible text on an option that still holds only its defaults drops them; re-proved with that state excluded (-DEXCL_RESET)",
+            "set-from-text is exercised on scalars holding a value, emptied scalars and lists of 0/1/3 values; the two defects found here (defaults dropped / zero element left by a refused text) are repaired, see known_findings.txt; the -DEXCL_RESET twins are kept as plain extra obligations",
         ])
 
 
 MANIFEST = {
     "text": "For every refusing call the real code is run from an arbitrary valid option state and the option is compared bit-for-bit with a snapshot taken before the call (values, cells, count, order, annotation pointer and text, default/modified markers), together with the failure return.",
-    "note": "One-call lemma; states built in the harness; one recorded finding excluded by an explicit assumption in a twin obligation.",
+    "note": "One-call lemma; states built in the harness.",
 }
